@@ -41,6 +41,12 @@ struct move_ptr : private std::move_iterator<Ptr> {
 	// TODO(correaa) implement auto& operator++()
 
 	BOOST_MULTI_HD constexpr /*implicit*/ operator Ptr() const {return std::move_iterator<Ptr>::base();}  // NOLINT(google-explicit-constructor,hicpp-explicit-conversions) // NOSONAR(cpp:S1709) decay to lvalue should be easy
+	// a fancy Ptr reaches its pointer-to-const through a user-defined conversion, which cannot be chained after the one above
+	template<
+		class ConstPtr,
+		std::enable_if_t<! std::is_pointer_v<Ptr> && std::is_same_v<ConstPtr, typename std::pointer_traits<Ptr>::template rebind<T const>> && ! std::is_same_v<ConstPtr, Ptr>, int> = 0
+	>
+	BOOST_MULTI_HD constexpr /*implicit*/ operator ConstPtr() const {return std::move_iterator<Ptr>::base();}  // NOLINT(google-explicit-constructor,hicpp-explicit-conversions) // NOSONAR(cpp:S1709)
 	BOOST_MULTI_HD constexpr auto operator+=(difference_type n) -> move_ptr& { static_cast<std::move_iterator<Ptr>&>(*this) += n; return *this; }
 	BOOST_MULTI_HD constexpr auto operator-=(difference_type n) -> move_ptr& { static_cast<std::move_iterator<Ptr>&>(*this) -= n; return *this; }
 
